@@ -421,6 +421,7 @@ def shards(tier):
     out = [{"kind": "hyp", "i": i} for i in range(6 if tier == "quick" else 12)]
     out += [{"kind": "exhaustive", "first": a} for a in PLAIN]
     out.append({"kind": "invalid_sweep"})
+    out.append({"kind": "large"})
     return out
 
 
@@ -432,6 +433,18 @@ def run_shard(spec, seed, tier):
         return res
     first = {}
     cases = []
+    if spec["kind"] == "large":
+        # the documented workflow with a keyword in 70 000 documents (16-byte identifiers): index and result exceed one MiB on the wire
+        cfg = S.default_config("CJJ14.PiPack")
+        cfg["param_identifier_size"] = 16
+        case = {"scheme": "CJJ14.PiPack", "cfg": cfg, "seed": 11,
+                "db": {"id_size": 16, "kws": [b"the".hex(), b"rare".hex()], "lens": [70000, 1], "id_mode": "be", "id_seed": 1},
+                "ops": [["create"], ["genkey"], ["encrypt"], ["upload_config"], ["upload_edb"], ["genkey"], ["search", 0], ["encrypt"], ["search", 1]]}
+        try:
+            body(case, res)
+        except Violation as v:
+            res.add_violation(case, str(v), v.bucket)
+        return res
     if spec["kind"] == "exhaustive":
         depth = 4 if tier == "quick" else 5
         for d in range(1, depth + 1):
